@@ -191,6 +191,47 @@ func c11Workload[T any](rep *Report, codec Codec[T], api string, rng *rand.Rand,
 			}
 		}
 	}
+	// narrower numeric types: float32 (values it holds only approximately included), int8, uint16, int32 and slices of them;
+	// the closure's float32 result goes back to the invocation
+	for row := range floatRows {
+		for _, dir := range []string{"A->B", "B->A"} {
+			rem := ra
+			if dir == "B->A" {
+				rem = rb
+			}
+			rep.Evaluations++
+			rep.Distinct++
+			want := floatRows[row]
+			d := map[string]any{"suite": "C11", "codec": codec.Name, "api": api, "dir": dir, "floatRow": row, "values": want.render()}
+			var got string
+			r := withWatchdog(func() (any, error) {
+				return rem.ClosureFloats(context.Background(), row, func(ctx context.Context, a float32, b []float32, c int8, dd []uint16, e []int32) (float32, error) {
+					got = floatRow{a, b, c, dd, e}.render()
+					return a, nil
+				})
+			})
+			if !r.ok {
+				rep.addViolation("property", key+":floats-hang", "ClosureFloats did not return", d)
+				return
+			}
+			if r.err != nil {
+				rep.addViolation("property", key+":floats-call", fmt.Sprintf("closure invoked with %s: the call failed: %v", want.render(), r.err), d)
+				select {
+				case e := <-p.A.LinkErr:
+					rep.addViolation("property", key+":floats-link", fmt.Sprintf("…and the link ended: %v", e), d)
+					return
+				case e := <-p.B.LinkErr:
+					rep.addViolation("property", key+":floats-link", fmt.Sprintf("…and the link ended: %v", e), d)
+					return
+				case <-time.After(20 * time.Millisecond):
+				}
+				continue
+			}
+			if got != want.render() || r.val.(string) != fmt.Sprintf("%v|<nil>", want.A) {
+				rep.addViolation("property", key+":floats-values", fmt.Sprintf("closure received %s, the callee supplied %s; the invocation got back %q, the function returned %v", got, want.render(), r.val, want.A), d)
+			}
+		}
+	}
 	// result value and error handed back to that invocation
 	for _, k := range []int{0, 1, 3} {
 		rep.Evaluations++
